@@ -5,7 +5,7 @@ CHECK = {
     # everything else under test is header-only
     "srcs": ["src/transform/SmartRotation3D.cpp"],
     "flavours": ["asan"],
-    "quick": {"shards": 4, "timeout": 600},
+    "quick": {"shards": 8, "timeout": 600},
     "thorough": {"shards": 16, "timeout": 3600},
     "required_categories": [
         "scalar_float", "scalar_double",
